@@ -220,18 +220,31 @@ Proof.
   rewrite with_pct_msgs, loads_msgs. apply Permutation_refl.
 Qed.
 
+(* the share is only meaningful when the total is not zero (in Q, x / 0 = 0 by totalisation; the Go
+   code yields NaN there): the hypothesis is explicit, `total_nonzero_lemma` derives it on the
+   property's domain and `shares_unknown_type_refuted` shows what happens outside *)
 Lemma entries_spec_lemma : forall b def load es,
-  (0 < def)%Z -> b_baud b <> 0%Z -> calculate_bus_load b def = BLOk load es ->
+  (0 < def)%Z -> b_baud b <> 0%Z ->
+  ~ qsum (map (bps (b_typ b) def) (bus_msgs b)) == 0 ->
+  calculate_bus_load b def = BLOk load es ->
   Forall (fun e => e_bps e = bps (b_typ b) def (e_msg e)
                    /\ e_pct e == e_bps e / qsum (map (bps (b_typ b) def) (bus_msgs b)) * inject_Z 100) es.
 Proof.
-  intros b def load es Hd Hb H. apply calc_ok_inv in H; [|assumption..]. destruct H as [_ ->].
+  intros b def load es Hd Hb _ H. apply calc_ok_inv in H; [|assumption..]. destruct H as [_ ->].
   apply (Forall_perm _ _ _ _ (Permutation_sym (sort_desc_perm _))).
   apply Forall_forall. intros e He. unfold with_pct in He. apply in_map_iff in He.
   destruct He as [e0 [<- He0]]. cbn [e_bps e_pct e_msg].
   unfold loads in He0. apply in_map_iff in He0. destruct He0 as [m [<- Hm]]. cbn [e_bps e_msg].
   split; [reflexivity|].
   rewrite total_bps_qsum. fold (loads (b_typ b) def (bus_msgs b)). rewrite loads_bps. reflexivity.
+Qed.
+
+Lemma total_nonzero_lemma : forall b def,
+  (0 < def)%Z -> valid_bus b -> bus_msgs b <> [] ->
+  ~ qsum (map (bps (b_typ b) def) (bus_msgs b)) == 0.
+Proof.
+  intros b def Hd [Ht Hv] Hne Hz. rewrite Ht in Hz.
+  pose proof (total_pos def (bus_msgs b) Hd Hne Hv) as Hpos. rewrite Hz in Hpos. discriminate.
 Qed.
 
 Lemma sorted_desc_lemma : forall b def load es,
@@ -407,4 +420,59 @@ Example monotone_witness :
      end.
 Proof.
   repeat split; try reflexivity; try (cbn; lia); vm_compute; reflexivity.
+Qed.
+
+(* ---------- outside the hypotheses ---------- *)
+(* negative baud rate (Bus.SetBaudrate takes an int and does not refuse it): the load is negative
+   and enlarging a message / shortening its cycle DEcreases it *)
+Definition neg_bus : bus := mkBus 0 (-250000) [[mkMsg 0 8 100; mkMsg 1 8 10]; []; [mkMsg 2 0 0]].
+Definition neg_bus_bigger : bus := mkBus 0 (-250000) [[mkMsg 0 8 100; mkMsg 1 8 10]; []; [mkMsg 2 3 0]].
+Definition neg_bus_faster : bus := mkBus 0 (-250000) [[mkMsg 0 8 100; mkMsg 1 8 10]; []; [mkMsg 2 0 499]].
+
+Lemma monotone_negative_baud_refuted_lemma :
+  exists b b1 b2 def load es load1 es1 load2 es2,
+    (0 < def)%Z /\ b_baud b <> 0%Z /\ valid_bus b /\ valid_bus b1 /\ valid_bus b2
+    /\ bus_msgs b = [mkMsg 0 8 100; mkMsg 1 8 10] ++ mkMsg 2 0 0 :: []
+    /\ bus_msgs b1 = [mkMsg 0 8 100; mkMsg 1 8 10] ++ mkMsg 2 3 0 :: []     (* enlarged *)
+    /\ bus_msgs b2 = [mkMsg 0 8 100; mkMsg 1 8 10] ++ mkMsg 2 0 499 :: []   (* cycle shortened from the default 500 *)
+    /\ calculate_bus_load b def = BLOk load es
+    /\ calculate_bus_load b1 def = BLOk load1 es1
+    /\ calculate_bus_load b2 def = BLOk load2 es2
+    /\ load1 < load /\ load2 < load.
+Proof.
+  exists neg_bus, neg_bus_bigger, neg_bus_faster, 500%Z.
+  destruct (calculate_bus_load neg_bus 500) as [l e|] eqn:E0; [|vm_compute in E0; discriminate].
+  destruct (calculate_bus_load neg_bus_bigger 500) as [l1 e1|] eqn:E1; [|vm_compute in E1; discriminate].
+  destruct (calculate_bus_load neg_bus_faster 500) as [l2 e2|] eqn:E2; [|vm_compute in E2; discriminate].
+  exists l, e, l1, e1, l2, e2.
+  assert (Hv : forall ifs, Forall valid_msg (concat ifs) -> valid_bus (mkBus 0 (-250000) ifs))
+    by (intros ifs H; split; [reflexivity | exact H]).
+  repeat split; try reflexivity; try discriminate; try (apply Hv; repeat constructor; cbn; lia);
+    vm_compute in E0, E1, E2; inversion E0; inversion E1; inversion E2; subst; reflexivity.
+Qed.
+
+(* zero baud rate: the load is 0 before and after, so nothing decreases *)
+Lemma monotone_zero_baud_lemma : forall b b' def,
+  (0 < def)%Z -> b_baud b = 0%Z -> b_baud b' = 0%Z ->
+  calculate_bus_load b def = BLOk 0 [] /\ calculate_bus_load b' def = BLOk 0 [].
+Proof. intros b b' def Hd H H'. split; apply zero_baud_lemma; assumption. Qed.
+
+(* a bus of an undefined type value (the library defines BusTypeCAN2A = 0 only, Bus.SetType takes
+   any int) whose only message is empty: every rate is 0, the total is 0, the shares do not sum to
+   100 (the model's x / 0 = 0 gives 0; the Go code gives NaN) *)
+Definition odd_bus : bus := mkBus 1 500000 [[mkMsg 0 0 10]].
+
+Lemma shares_unknown_type_refuted_lemma :
+  exists b def load es,
+    (0 < def)%Z /\ b_baud b <> 0%Z /\ bus_msgs b <> [] /\ Forall valid_msg (bus_msgs b)
+    /\ calculate_bus_load b def = BLOk load es
+    /\ qsum (map (bps (b_typ b) def) (bus_msgs b)) == 0
+    /\ ~ qsum (map e_pct es) == inject_Z 100.
+Proof.
+  exists odd_bus, 100%Z.
+  destruct (calculate_bus_load odd_bus 100) as [l e|] eqn:E0; [|vm_compute in E0; discriminate].
+  exists l, e. vm_compute in E0. inversion E0; subst.
+  split; [reflexivity|]. split; [discriminate|]. split; [discriminate|].
+  split; [repeat constructor; cbn; lia|]. split; [reflexivity|].
+  split; [reflexivity|]. intros H. vm_compute in H. discriminate.
 Qed.
